@@ -350,4 +350,133 @@ theorem valOf_shape (ns : NsMap) (t : Ty) (lex : String) (v : Val) (h : valOf ns
       | (cases h; trivial)
       | (cases h; exact shape_normDec _ _)
 
+/-! ### stack discipline of the namespace contexts (Model §2b) -/
+
+/-- state right after `set_xmlns_context(i, L)` for an element met for the first time, the map in
+    scope of its parent being `m` and the contexts of its ancestors `S` -/
+def entered (m : NsMap) (S : List NsCtx) (i L : Nat) (xm : NsMap) : NsSt :=
+  if xm.isEmpty then ⟨m, S⟩ else ⟨nsUpdate m xm, ⟨i, L, m⟩ :: S⟩
+
+theorem entered_cur (m : NsMap) (S : List NsCtx) (i L : Nat) (xm : NsMap) :
+    (entered m S i L xm).cur = nsUpdate m xm := by
+  unfold entered
+  cases xm with
+  | nil => simp [nsUpdate]
+  | cons a r => simp
+
+theorem popCtx_below {obj L : Nat} {T : List NsCtx} (h : ∀ x ∈ T, x.level < L) (r : Option NsMap) :
+    popCtx obj L T r = (T, r, false) := by
+  cases T with
+  | nil => rfl
+  | cons c cs =>
+    have : L > c.level := h c List.mem_cons_self
+    simp [popCtx, this]
+
+/-- the state between two children of an element at level `L` whose in-scope map is `c` and whose
+    stack (own context included) is `T`: untouched, or with the context of an already visited
+    child on top (which saved `c`) -/
+def Residue (L : Nat) (c : NsMap) (T : List NsCtx) (seen : List Nat) (st : NsSt) : Prop :=
+  (st.cur = c ∧ st.stack = T) ∨ (∃ j, j ∈ seen ∧ st.stack = ⟨j, L + 1, c⟩ :: T)
+
+theorem setCtx_child {L : Nat} {c : NsMap} {T : List NsCtx} {seen : List Nat} {st : NsSt}
+    (hT : ∀ x ∈ T, x.level < L + 1) (hr : Residue L c T seen st) (i : Nat) (hi : i ∉ seen)
+    (xm : NsMap) : setCtx i (L + 1) xm st = entered c T i (L + 1) xm := by
+  rcases hr with ⟨h1, h2⟩ | ⟨j, hj, h2⟩
+  · unfold setCtx entered
+    rw [h2, popCtx_below hT]
+    simp [h1]
+  · have hne : ¬ j = i := fun h => hi (h ▸ hj)
+    unfold setCtx entered
+    rw [h2]
+    simp only [popCtx, Nat.lt_irrefl, gt_iff_lt, if_false, true_and, hne]
+    rw [popCtx_below hT]
+    simp
+
+theorem setCtx_purge {L : Nat} {m : NsMap} {S : List NsCtx} {seen : List Nat} {st : NsSt}
+    (i : Nat) (xm : NsMap) (hS : ∀ x ∈ S, x.level < L)
+    (hr : Residue L (nsUpdate m xm) (entered m S i L xm).stack seen st) :
+    setCtx i L xm st = entered m S i L xm := by
+  have hnl : ¬ L > L + 1 := by omega
+  have hne : ¬ L = L + 1 := by omega
+  cases hx : xm.isEmpty with
+  | true =>
+    have hxe : xm = [] := List.isEmpty_iff.mp hx
+    subst hxe
+    simp only [entered, List.isEmpty_nil, if_true, nsUpdate, List.reverse_nil, List.nil_append] at hr ⊢
+    rcases hr with ⟨h1, h2⟩ | ⟨j, _, h2⟩
+    · unfold setCtx
+      rw [h2, popCtx_below hS]
+      simp [h1]
+    · unfold setCtx
+      rw [h2]
+      simp only [popCtx, hnl, hne, if_false, false_and]
+      rw [popCtx_below hS]
+      simp
+  | false =>
+    simp only [entered, hx, Bool.false_eq_true, if_false] at hr ⊢
+    rcases hr with ⟨h1, h2⟩ | ⟨j, _, h2⟩
+    · unfold setCtx
+      rw [h2]
+      simp [popCtx, h1]
+    · unfold setCtx
+      rw [h2]
+      simp [popCtx, hnl]
+
+mutual
+/-- walking an element returns the mapper to the state it was entered with, and every collect
+    inside it reads the declarations in scope of its element -/
+theorem nsWalk_spec : ∀ (n : Node) (L : Nat) (m : NsMap) (S : List NsCtx), n.sibOk = true →
+    (∀ x ∈ S, x.level < L) →
+    n.nsWalk L (entered m S n.id L n.xmlns) = (n.scopes m, entered m S n.id L n.xmlns)
+  | .mk i d nm a t x xm kids, L, m, S, hs, hS => by
+    simp only [Node.sibOk, Bool.and_eq_true, decide_eq_true_eq] at hs
+    have hT : ∀ y ∈ (entered m S i L xm).stack, y.level < L + 1 := by
+      intro y hy
+      unfold entered at hy
+      split at hy
+      · exact Nat.lt_succ_of_lt (hS y hy)
+      · rcases List.mem_cons.mp hy with rfl | hy
+        · exact Nat.lt_succ_self _
+        · exact Nat.lt_succ_of_lt (hS y hy)
+    obtain ⟨e1, r1⟩ := nsWalkList_spec kids L (nsUpdate m xm) (entered m S i L xm).stack []
+      (entered m S i L xm) hT (Or.inl ⟨entered_cur .., rfl⟩) hs.1 (by simp) hs.2
+    simp only [Node.nsWalk, Node.id, Node.xmlns, Node.scopes]
+    rw [e1]
+    simp only [setCtx_purge i xm hS r1, entered_cur]
+theorem nsWalkList_spec : ∀ (kids : List Node) (L : Nat) (c : NsMap) (T : List NsCtx)
+    (seen : List Nat) (st : NsSt), (∀ x ∈ T, x.level < L + 1) → Residue L c T seen st →
+    (kids.map Node.id).Nodup → (∀ k ∈ kids, k.id ∉ seen) → sibOkList kids = true →
+    (nsWalkList (L + 1) kids st).1 = scopesList c kids ∧
+      Residue L c T (seen ++ kids.map Node.id) (nsWalkList (L + 1) kids st).2
+  | [], L, c, T, seen, st, _, hr, _, _, _ => by
+    simpa [nsWalkList, scopesList] using hr
+  | k :: ks, L, c, T, seen, st, hT, hr, hn, hd, hs => by
+    simp only [sibOkList, Bool.and_eq_true] at hs
+    simp only [List.map_cons, List.nodup_cons] at hn
+    have hk : k.id ∉ seen := hd k List.mem_cons_self
+    have e0 := setCtx_child hT hr k.id hk k.xmlns
+    have e1 := nsWalk_spec k (L + 1) c T hs.1 hT
+    have r1 : Residue L c T (seen ++ [k.id]) (entered c T k.id (L + 1) k.xmlns) := by
+      unfold entered
+      split
+      · exact Or.inl ⟨rfl, rfl⟩
+      · exact Or.inr ⟨k.id, by simp, rfl⟩
+    obtain ⟨e2, r2⟩ := nsWalkList_spec ks L c T (seen ++ [k.id]) (entered c T k.id (L + 1) k.xmlns)
+      hT r1 hn.2 (by
+        intro k' hk' hmem
+        rcases List.mem_append.mp hmem with h | h
+        · exact hd k' (List.mem_cons_of_mem _ hk') h
+        · simp only [List.mem_singleton] at h
+          exact hn.1 (h ▸ List.mem_map_of_mem hk')) hs.2
+    simp only [nsWalkList, e0, e1, scopesList]
+    refine ⟨by rw [e2], ?_⟩
+    simpa [List.append_assoc] using r2
+end
+
+/-- the root's first `set_xmlns_context(root, 0)` on an empty stack -/
+theorem setCtx_root (ns0 : NsMap) (i : Nat) (xm : NsMap) :
+    setCtx i 0 xm ⟨ns0, []⟩ = entered ns0 [] i 0 xm := by
+  unfold setCtx entered
+  simp [popCtx]
+
 end XsVerif.Identity
